@@ -1,83 +1,463 @@
+// C16 — neuron annotations: the in-memory head equals the store; updates merge fields.
+//
+// Oracle (differential + metamorphic, no re-implementation of the update code):
+//  (1) after commit H; newversion -> H', H is read through the store and H' through the in-memory database while both
+//      hold identical data: every read endpoint must answer identically on the two uuids;
+//  (2) the same version must answer identically before and after a restart (clean, abrupt, SIGKILL);
+//  (3) update rules of the statement, evaluated on GET key?show=all before/after each accepted POST.
+// Differences are attributed to precisely defined classes (stable violation keys) where a predicate proves the class;
+// everything else gets the generic key neuronjson:diff:<endpoint class>:<pair|restart-head|restart-store>.
 package main
 
 import (
 	"fmt"
+	"math/rand"
+	"sort"
+	"strings"
+	"sync"
 
 	"verif/harness/internal/drv"
-	"verif/harness/internal/dvc"
+	nj "verif/harness/internal/njcheck"
 )
 
 func main() { drv.Main("C16", "exploration", run) }
 
+var users = []string{"ada", "bob", "cyd", "dee"}
+
+// ---------- scripted minimal scenarios (deterministic; they give each known difference class its smallest witness) ----------
+
+type scenario struct {
+	name  string
+	style string
+	ids   []uint64
+	extra []nj.Rq
+	steps func(s *nj.Seq) error
+}
+
+func post(s *nj.Seq, user string, a *nj.Annotation) error {
+	return s.Post([]*nj.Annotation{a}, nj.PostOpts{User: user}, false)
+}
+
+func seqErr(fs ...func() error) error {
+	for _, f := range fs {
+		if err := f(); err != nil {
+			return err
+		}
+	}
+	return nil
+}
+
+func scanQ(body string, fields []string, show string, onlyid bool) nj.Rq {
+	var p []string
+	if len(fields) > 0 {
+		p = append(p, "fields="+strings.Join(fields, ","))
+	}
+	if show != "" {
+		p = append(p, "show="+show)
+	}
+	if onlyid {
+		p = append(p, "onlyid=true")
+	}
+	path := "query"
+	if len(p) > 0 {
+		path += "?" + strings.Join(p, "&")
+	}
+	return nj.Rq{Class: "query-scan", Method: "GET", Path: path, Body: []byte(body), Norm: "ordered", Fields: fields, Show: show, OnlyID: onlyid, QClass: "scripted"}
+}
+
+func scenarios() []scenario {
+	return []scenario{
+		{"delete-first-of-two", nj.StyleFour, []uint64{1001, 1002}, nil, func(s *nj.Seq) error {
+			return seqErr(
+				func() error { return post(s, "ada", nj.Ann(1001, "type", `"KC"`)) },
+				func() error { return post(s, "ada", nj.Ann(1002, "type", `"KC"`)) },
+				s.Advance,
+				func() error { return s.Delete(1001, "bob") },
+				s.Advance,
+				func() error { return s.Restart("clean", false) })
+		}},
+		{"delete-positions-of-five", nj.StyleFour, []uint64{1001, 1002, 1003, 1004, 1005}, nil, func(s *nj.Seq) error {
+			for _, id := range s.IDs {
+				if err := post(s, "ada", nj.Ann(id, "type", `"KC"`, "group", `1`)); err != nil {
+					return err
+				}
+			}
+			if err := s.Advance(); err != nil {
+				return err
+			}
+			for _, id := range []uint64{1005, 1003, 1001, 1002, 1004} { // last, middle, first, ...
+				if err := s.Delete(id, "bob"); err != nil {
+					return err
+				}
+				if err := s.Advance(); err != nil {
+					return err
+				}
+			}
+			return nil
+		}},
+		{"null-removes-field", nj.StyleFour, []uint64{1001, 1002}, nil, func(s *nj.Seq) error {
+			return seqErr(
+				func() error { return post(s, "ada", nj.Ann(1001, "type", `"KC"`, "status", `"Traced"`)) },
+				func() error { return post(s, "ada", nj.Ann(1002, "type", `"KC"`)) },
+				s.Advance,
+				func() error { return post(s, "bob", nj.Ann(1001, "type", `null`)) },
+				s.Advance,
+				func() error { return s.Restart("abrupt", false) })
+		}},
+		{"last-holder-of-field-deleted", nj.StyleFour, []uint64{1001, 1002}, nil, func(s *nj.Seq) error {
+			return seqErr(
+				func() error { return post(s, "ada", nj.Ann(1001, "type", `"KC"`)) },
+				func() error { return post(s, "ada", nj.Ann(1002, "status", `"Traced"`)) },
+				s.Advance,
+				func() error { return s.Delete(1002, "bob") },
+				s.Advance)
+		}},
+		{"query-with-fields-option", nj.StyleFour, []uint64{1001, 1002}, []nj.Rq{scanQ(`{"type":"KC"}`, []string{"status"}, "", false)}, func(s *nj.Seq) error {
+			return seqErr(
+				func() error { return post(s, "ada", nj.Ann(1001, "type", `"KC"`, "status", `"Traced"`, "group", `1`)) },
+				func() error { return post(s, "ada", nj.Ann(1002, "type", `"KC"`, "status", `"Anchor"`)) },
+				s.Advance)
+		}},
+		{"mixed-length-ids", nj.StyleMixed, []uint64{2, 5, 10, 30}, []nj.Rq{
+			{Class: "keyrange", Method: "GET", Path: "keyrange/2/30", Norm: "set", Beg: "2", End: "30"},
+			{Class: "krv", Method: "GET", Path: "keyrangevalues/1/3?json=true", Norm: "json", Beg: "1", End: "3"},
+			scanQ(`{"type":"KC"}`, nil, "", true)}, func(s *nj.Seq) error {
+			for _, id := range s.IDs {
+				if err := post(s, "ada", nj.Ann(id, "type", `"KC"`)); err != nil {
+					return err
+				}
+			}
+			return s.Advance()
+		}},
+		{"integral-float-repost", nj.StyleFour, []uint64{1001, 1002}, nil, func(s *nj.Seq) error {
+			return seqErr(
+				func() error { return post(s, "ada", nj.Ann(1001, "size", `3.0`)) },
+				func() error { return post(s, "ada", nj.Ann(1002, "size", `0.5`)) },
+				func() error { return post(s, "bob", nj.Ann(1001, "size", `3.0`)) },
+				func() error { return post(s, "bob", nj.Ann(1002, "size", `0.5`)) },
+				s.Advance)
+		}},
+		{"list-with-integral-float", nj.StyleFour, []uint64{1001, 1002}, []nj.Rq{scanQ(`{"tags":1}`, nil, "", false)}, func(s *nj.Seq) error {
+			return seqErr(
+				func() error { return post(s, "ada", nj.Ann(1001, "tags", `[1,2.0]`)) },
+				func() error { return post(s, "ada", nj.Ann(1002, "tags", `["a"]`)) },
+				s.Advance,
+				func() error { return s.Restart("kill", false) })
+		}},
+		{"explicit-stamps", nj.StyleFour, []uint64{1001, 1002}, nil, func(s *nj.Seq) error {
+			a := nj.Ann(1001, "type", `"KC"`)
+			a.Stamps = map[string][2]string{"type": {"zoe", "2001-02-03T04:05:06Z"}}
+			b := nj.Ann(1002, "type", `"KCab"`)
+			b.Stamps = map[string][2]string{"type": {"zoe", "2030-01-01T00:00:00Z"}}
+			return seqErr(
+				func() error { return post(s, "ada", a) },
+				func() error { return post(s, "ada", b) },
+				func() error { return post(s, "bob", nj.Ann(1001, "type", `"KC"`)) },    // unchanged: stamps of 2001 stay
+				func() error { return post(s, "cyd", nj.Ann(1001, "status", `"Traced"`)) }, // other field: type stamps stay
+				s.Advance,
+				func() error { return s.Restart("clean", false) },
+				func() error { return post(s, "dee", nj.Ann(1001, "type", `"MBON01"`)) }, // changed: stamps must move off 2001
+				s.Advance)
+		}},
+		{"schemas-and-restart-between-commit-and-newversion", nj.StyleFour, []uint64{1001, 1002}, nil, func(s *nj.Seq) error {
+			return seqErr(
+				func() error { return s.Meta("json_schema", nj.JSONSchemaText, "ada") },
+				func() error { return s.Meta("schema", `{"s":1}`, "ada") },
+				func() error { return s.Meta("schema_batch", `{"sb":1}`, "ada") },
+				func() error { return post(s, "ada", nj.Ann(1001, "group", `"123"`, "status", `"Traced"`)) },
+				func() error { return post(s, "ada", nj.Ann(1002, "group", `2`)) },
+				func() error { return post(s, "bob", nj.Ann(1001, "group", `"123"`)) }, // converted to 123: unchanged
+				func() error { return post(s, "bob", nj.Ann(1002, "status", `5`)) },    // violates the schema: refused
+				s.Advance,
+				func() error { return s.Restart("clean", true) },
+				func() error { return s.Meta("key/schema", "", "cyd") },
+				func() error { return s.Meta("json_schema", "", "cyd") },
+				s.Advance,
+				func() error { return s.Restart("abrupt", false) })
+		}},
+	}
+}
+
+// ---------- random sequences ----------
+
+func existing(s *nj.Seq) []uint64 {
+	var out []uint64
+	for id := range s.Exists {
+		out = append(out, id)
+	}
+	sort.Slice(out, func(i, j int) bool { return out[i] < out[j] })
+	return out
+}
+
+func randomSeq(s *nj.Seq, nops int) error {
+	r := s.R
+	ui := r.Intn(len(users))
+	user := func() string { ui = (ui + 1 + r.Intn(2)) % len(users); return users[ui] }
+	anyID := func() uint64 { return s.IDs[r.Intn(len(s.IDs))] }
+	someFields := func() []string {
+		names := []string{"type", "status", "group", "size", "pos", "tags"}
+		n := 1 + r.Intn(2)
+		var out []string
+		for i := 0; i < n; i++ {
+			out = append(out, names[r.Intn(len(names))])
+		}
+		return out
+	}
+	// seed: three annotations
+	for _, i := range r.Perm(len(s.IDs))[:3] {
+		if err := s.Post([]*nj.Annotation{nj.GenAnnotation(r, s.IDs[i], 0, s.IntFloat, nil)}, nj.PostOpts{User: user()}, false); err != nil {
+			return err
+		}
+	}
+	if err := s.Advance(); err != nil {
+		return err
+	}
+	sinceRestart := 0
+	for step := 0; step < nops; step++ {
+		x := r.Intn(100)
+		var err error
+		switch {
+		case x < 28:
+			id := anyID()
+			var prefer []string
+			if l := s.Last[id]; l != nil {
+				prefer = l.Fields
+			}
+			err = s.Post([]*nj.Annotation{nj.GenAnnotation(r, id, 14, s.IntFloat, prefer)}, nj.PostOpts{User: user()}, false)
+		case x < 36:
+			err = s.Post([]*nj.Annotation{nj.GenAnnotation(r, anyID(), 8, s.IntFloat, nil)}, nj.PostOpts{User: user(), Replace: true}, false)
+		case x < 44:
+			err = s.Post([]*nj.Annotation{nj.GenAnnotation(r, anyID(), 0, s.IntFloat, nil)}, nj.PostOpts{User: user(), Cond: someFields()}, false)
+		case x < 51: // repeat the last accepted body of an annotation with another user: nothing may change
+			ex := existing(s)
+			if len(ex) == 0 {
+				continue
+			}
+			id := ex[r.Intn(len(ex))]
+			if l := s.Last[id]; l != nil {
+				s.C.Count("op_repost_identical", 1)
+				err = s.Post([]*nj.Annotation{l}, nj.PostOpts{User: user()}, false)
+			}
+		case x < 63:
+			n := 2 + r.Intn(3)
+			var as []*nj.Annotation
+			for _, i := range r.Perm(len(s.IDs))[:n] {
+				as = append(as, nj.GenAnnotation(r, s.IDs[i], 10, s.IntFloat, nil))
+			}
+			o := nj.PostOpts{User: user()}
+			switch r.Intn(5) {
+			case 0:
+				o.Replace = true
+			case 1:
+				o.Cond = someFields()
+			}
+			err = s.Post(as, o, true)
+		case x < 79:
+			ex := existing(s)
+			var id uint64
+			pos := "absent"
+			if len(ex) == 0 || r.Intn(10) == 0 {
+				id = anyID()
+				if s.Exists[id] {
+					pos = "random"
+				}
+			} else {
+				switch r.Intn(3) {
+				case 0:
+					id, pos = ex[0], "first"
+				case 1:
+					id, pos = ex[len(ex)-1], "last"
+				default:
+					id, pos = ex[len(ex)/2], "middle"
+				}
+				if len(ex) == 1 {
+					pos = "only"
+				}
+			}
+			s.C.Count("delete_position_"+pos, 1)
+			err = s.Delete(id, user())
+		case x < 88:
+			switch r.Intn(8) {
+			case 0, 1:
+				err = s.Meta("json_schema", nj.JSONSchemaText, user())
+			case 2:
+				err = s.Meta("schema", nj.NeuSchemaText(r, "schema"), user())
+			case 3:
+				err = s.Meta("schema_batch", nj.NeuSchemaText(r, "schema_batch"), user())
+			case 4:
+				err = s.Meta("key/schema", nj.NeuSchemaText(r, "schema"), user())
+			case 5:
+				err = s.Meta([]string{"schema", "schema_batch", "key/schema_batch"}[r.Intn(3)], "", user())
+			case 6:
+				err = s.Meta("json_schema", "", user())
+			default:
+				err = s.Meta("key/schema_batch", nj.NeuSchemaText(r, "schema_batch"), user())
+			}
+		default:
+			// no mutation in this step
+		}
+		if err != nil {
+			return err
+		}
+		sinceRestart++
+		y := r.Intn(100)
+		switch {
+		case y < 72:
+			err = s.Advance()
+		case y < 76 && sinceRestart >= 3:
+			sinceRestart = 0
+			err = s.Restart([]string{"clean", "abrupt", "kill"}[r.Intn(3)], true)
+		}
+		if err != nil {
+			return err
+		}
+		if sinceRestart >= 5 || (sinceRestart >= 3 && r.Intn(6) == 0) {
+			sinceRestart = 0
+			if err := s.Restart([]string{"clean", "abrupt", "kill"}[r.Intn(3)], false); err != nil {
+				return err
+			}
+		}
+	}
+	return s.Advance()
+}
+
+// ---------- run ----------
+
+type job struct {
+	idx      int
+	name     string
+	seed     int64
+	style    string
+	intfloat bool
+	sc       *scenario
+	nops     int
+}
+
 func run(c *drv.Ctx) error {
+	c.Rule("a sequence = POST key / POST keyvalues (plain, replace=true, conditionals=), DELETE key, json_schema/schema/schema_batch posts and deletes, commit+newversion, restarts (clean, abrupt, SIGKILL; also between commit and newversion) " +
+		"on one neuronjson instance; values from a closed vocabulary (strings, ints at 2^53 and 2^64-1, negative ints, floats, int/string/mixed/nested arrays, nested objects, booleans, nulls); body ids 4-digit, near 2^53, near 2^64 (equal decimal length) or mixed length. " +
+		"A case is (a) one read request answered by the in-memory head and by its committed parent holding identical data, (b) the same request on the same version before/after a restart, (c) one evaluation of an update rule on one field. " +
+		"Distinct by (compare kind, request, answer) resp. (rule, field, before, posted, after, options). Non-trivial: the instance holds >= 2 annotations and an accepted mutation happened since the previous observation (a, b: >= 2 annotations); rule cases: the annotation existed before the POST.")
+	c.Assume("wrapper engines add no semantics: crashkv delegates every call to storage/badger")
+	c.Assume("keys, all, fields, keyrange and keyrangevalues promise no element order: compared as multisets (order differences are counted); query and keyvalues are compared in order; an empty list rendered as null equals []")
+	c.Assume("fieldtimes is defined for the in-memory head only: compared across restarts, not between head and store")
+	c.Assume("F_time 'does change' is asserted only when the driver's monotonic clock shows >= 2.5 s since the previous change of that field (RFC3339 stamps have 1 s resolution), or when the old stamp is the explicit 2001 stamp of the dedicated sub-test")
 	bin, err := c.Build("dvidw", "")
 	if err != nil {
 		return err
 	}
-	dir, _ := c.NewDataDir("x", drv.ConfOpts{})
-	w, err := drv.StartWorker(bin, dir, drv.StartOpts{})
-	if err != nil {
-		return err
+	var jobs []job
+	scs := scenarios()
+	for i := range scs {
+		jobs = append(jobs, job{name: "scripted:" + scs[i].name, sc: &scs[i], style: scs[i].style, seed: c.Rand.Int63()})
 	}
-	defer w.Kill()
-	cl := &dvc.Client{W: w}
-	root, err := cl.NewRepo("x")
-	if err != nil {
-		return err
+	nseq := c.N(15, 500)
+	nops := c.N(25, 40)
+	for i := 0; i < nseq; i++ {
+		style := nj.StyleFour
+		switch i % 10 {
+		case 3, 8:
+			style = nj.Style2p53
+		case 5:
+			style = nj.StyleMax64
+		case 1, 6:
+			style = nj.StyleMixed
+		}
+		jobs = append(jobs, job{name: fmt.Sprintf("random-%03d", i), seed: c.Rand.Int63(), style: style, intfloat: i%5 == 4, nops: nops})
 	}
-	if err := cl.NewInstance(root, "neuronjson", "nj", nil); err != nil {
-		return err
+	for i := range jobs {
+		jobs[i].idx = i
 	}
-	p := func(m, u, b string) {
-		r, err := w.HTTP(m, u, []byte(b))
-		fmt.Printf("%s %s %s\n   -> %d %s [%v]\n", m, u, b, r.Status, string(r.Body), err)
+	nw := c.N(5, 12)
+	results := make([][]nj.Viol, len(jobs))
+	traces := make([][]string, len(jobs))
+	errs := make([]string, nw)
+	var wg sync.WaitGroup
+	for wi := 0; wi < nw; wi++ {
+		wg.Add(1)
+		go func(wi int) {
+			defer wg.Done()
+			dir, err := c.NewDataDir(fmt.Sprintf("w%d", wi), drv.ConfOpts{})
+			if err != nil {
+				errs[wi] = err.Error()
+				return
+			}
+			w, err := drv.StartWorker(bin, dir, drv.StartOpts{})
+			if err != nil {
+				errs[wi] = err.Error()
+				return
+			}
+			defer func() { w.Kill() }()
+			for ji := wi; ji < len(jobs); ji += nw {
+				j := jobs[ji]
+				r := rand.New(rand.NewSource(j.seed))
+				s, err := nj.NewSeq(c, j.name, r, bin, w)
+				if err == nil {
+					s.Style, s.IntFloat = j.style, j.intfloat
+					if j.sc != nil {
+						s.IDs, s.Extra, s.NQ = j.sc.ids, j.sc.extra, 20
+						err = j.sc.steps(s)
+					} else {
+						s.IDs = nj.IDPool(r, j.style, 5+r.Intn(4))
+						err = randomSeq(s, j.nops)
+					}
+					w = s.W
+					results[ji] = s.Viols
+					traces[ji] = s.Trace
+					c.Count("sequences", 1)
+					c.Count("sequences_"+j.style, 1)
+				}
+				if err != nil {
+					st := ""
+					if w != nil {
+						st = drv.FatalInStderr(w.Stderr())
+					}
+					errs[wi] = fmt.Sprintf("worker %d sequence %s: %v; stderr: %s", wi, j.name, err, st)
+					return
+				}
+			}
+		}(wi)
 	}
-	h := root
-	base := func() string { return "/api/node/" + h + "/nj/" }
-	p("POST", base()+"key/1?u=al", `{"bodyid":1,"a":"x","n":3.0,"l":[1,2.0]}`)
-	p("POST", base()+"key/2?u=al", `{"bodyid":2,"a":"y"}`)
-	p("POST", base()+"key/10?u=al", `{"bodyid":10,"a":"z","b":null}`)
-	p("GET", base()+"key/1?show=all", "")
-	p("POST", base()+"key/1?u=bob", `{"bodyid":1,"n":3.0}`)
-	p("GET", base()+"key/1?show=all", "")
-	p("POST", base()+"key/1?u=bob", `{"bodyid":1,"a":null}`)
-	p("GET", base()+"key/1?show=all", "")
-	p("DELETE", base()+"key/1?u=bob", "")
-	if err := cl.Commit(h); err != nil {
-		return err
+	wg.Wait()
+	// one violation per key: the witness with the shortest history (ties: sequence order; scripted scenarios come first)
+	best := map[string]nj.Viol{}
+	bestLen := map[string]int{}
+	var order []string
+	for ji := range jobs {
+		for _, v := range results[ji] {
+			n := 1 << 30
+			if m, ok := v.Witness.(map[string]interface{}); ok {
+				if t, ok := m["trace"].([]string); ok {
+					n = len(t)
+				}
+			}
+			if _, seen := best[v.Key]; !seen {
+				order = append(order, v.Key)
+				best[v.Key], bestLen[v.Key] = v, n
+			} else if n < bestLen[v.Key] {
+				best[v.Key], bestLen[v.Key] = v, n
+			}
+		}
 	}
-	h2, err := cl.NewVersion(h)
-	if err != nil {
-		return err
+	sort.Strings(order)
+	for _, k := range order {
+		c.Violation(k, best[k].What, best[k].Witness)
 	}
-	for _, v := range []string{h, h2} {
-		h = v
-		fmt.Println("=====", v)
-		p("GET", base()+"keys", "")
-		p("GET", base()+"all", "")
-		p("GET", base()+"fields", "")
-		p("GET", base()+"fields?counts=true", "")
-		p("GET", base()+"fieldtimes", "")
-		p("GET", base()+"keyrange/0/a", "")
-		p("GET", base()+"keyrange/1/3", "")
-		p("GET", base()+"keyrange/2/10", "")
-		p("GET", base()+"keyrangevalues/1/3?json=true", "")
-		p("GET", base()+"keyrangevalues/0/a?json=true&fields=a", "")
-		p("GET", base()+"keyvalues?json=true", `["1","2","10"]`)
-		p("GET", base()+"keyvalues?json=true", `[1,2,10]`)
-		p("GET", base()+"query", `{"a":"re/[yz]"}`)
-		p("POST", base()+"query", `{"a":"re/[yz]"}`)
-		p("GET", base()+"query?fields=b", `{"a":"re/[yz]"}`)
-		p("GET", base()+"query?onlyid=true", `{"a":["y","z"]}`)
-		p("GET", base()+"query", `{"b":"exists/0"}`)
-		p("GET", base()+"query", `{"bodyid":[10,2]}`)
-		p("HEAD", base()+"key/1", "")
-		p("HEAD", base()+"key/2", "")
-		p("GET", base()+"json_schema", "")
-		p("HEAD", base()+"json_schema", "")
+	for ji := range jobs {
+		if len(traces[ji]) > 0 && jobs[ji].sc == nil {
+			c.Sample(map[string]interface{}{"sequence": jobs[ji].name, "id_style": jobs[ji].style, "ops": traces[ji]})
+			break
+		}
 	}
-	c.Case("a", true)
-	c.Case("b", true)
-	c.Sample("explore")
+	c.Sample(map[string]interface{}{"sequence": jobs[0].name, "ops": traces[0]})
+	var all []string
+	for _, e := range errs {
+		if e != "" {
+			all = append(all, e)
+		}
+	}
+	if len(all) > 0 {
+		return fmt.Errorf("%s", strings.Join(all, " | "))
+	}
 	return nil
 }
